@@ -3,12 +3,13 @@ from verifkit.runner import Stream
 from verifkit import gen
 
 ID = "C03"
-THM_MODULES = ["Minicbor.Thm.C03"]
+THM_MODULES = ["Minicbor.Thm.C03", "Minicbor.Thm.C03Builtin"]
 P = "Minicbor.C03."
 REQUIRED = [P + n for n in """u8_pref u16_pref u32_pref u64_pref negArms_pref i8_pref i16_pref i32_pref i64_pref int_pref
 typeLen_pref tag_pref array_pref map_pref bytes_pref str_pref char_pref bool_pref null_pref undefined_pref
 f32_pref f64_pref f16_pref simple_pref_partial simple_counterexample simple_reserved_invalid
-array_denote map_denote tag_denote deterministic""".split()]
+array_denote map_denote tag_denote deterministic
+builtin_pref builtin_wellformed builtin_deterministic bare_tag_not_an_item value_prefTree""".split()]
 PACKAGES = ["hcore"]
 RULE = ("enc <method> <arg>: every Encoder method; all u8/i8/u16/i16 values and all 256 simple values exhaustively, "
         "boundary-dense (2^k±3, width edges) and seeded random 32/64-bit arguments, strings around the length-width edges; "
